@@ -14,3 +14,15 @@ PROPS["C17"] = dict(
         "find_if ranges are index-checked iterators: out-of-range evaluation is detected without relying on ASan redzones",
     ],
 )
+
+PROPS["C03"] = dict(
+    level="exploration",
+    units=[
+        Unit("c03_stop", "harness/c03_stop.cpp", cfg="d17", max_size=120, pin=True,
+             quick=(30, 400000), thorough=(480, 20000000)),
+    ],
+    assumptions=[
+        "L1: detsched explores sequentially-consistent interleavings of atomic operations only; memory-order-only weakenings are invisible",
+        "the harness upstream token (adapter variant) is assumed correct",
+    ],
+)
